@@ -312,15 +312,21 @@ func (pid *grainPID) deactivate(ctx context.Context) (err error) {
 	actorSystem := pid.actorSystem
 	identity := pid.getIdentity()
 
-	actorSystem.getGrains().Delete(identity.String())
+	// The registry record goes first and the local entry last. While the local
+	// entry is gone but the record still names this node, a new activation on
+	// this node finds itself the owner, activates without a claim, and the late
+	// RemoveGrain below would then erase the record of that new instance,
+	// leaving it unprotected against an activation on another node.
 	if actorSystem.InCluster() {
 		if err := actorSystem.getCluster().RemoveGrain(ctx, pid.identity.String()); err != nil {
+			actorSystem.getGrains().Delete(identity.String())
 			if pid.logger.Enabled(log.ErrorLevel) {
 				pid.logger.Errorf("failed to remove grain=%s from cluster: %v (hint: check cluster connectivity)", pid.identity.String(), err)
 			}
 			return gerrors.NewErrGrainDeactivationFailure(err)
 		}
 	}
+	actorSystem.getGrains().Delete(identity.String())
 
 	if pid.logger.Enabled(log.DebugLevel) {
 		pid.logger.Debugf("grain=%s deactivated successfully", pid.identity.String())
